@@ -109,7 +109,9 @@ def decodeItemBody (c : Codec) : P Entry :=
   bind (take keyLen) fun key =>
   bind (take storedLen) fun stored =>
   match comp with
-  | .none => pure (.item { ks, key, val := stored, kind, comp })
+  | .none =>
+    -- the length fields are untrusted: `value_len != on_disk_value_len` is a decode error
+    if valLen = storedLen then pure (.item { ks, key, val := stored, kind, comp }) else fail
   | .lz4 => bind (ofOption (c.decompress stored valLen)) fun val =>
       pure (.item { ks, key, val, kind, comp })
 
